@@ -351,7 +351,8 @@ def need_third_peer(w):
 def initiator_cases():
     """COOKIE reply delivered once / twice / after the real reply; then the session runs to the end"""
     for mode in ('once', 'twice', 'after-real-reply', 'second-challenge', 'retry-lost', 'retry-lost:load-gone',
-                 'retry-answer-lost', 'invalid-ke-after-cookie', 'retry-lost:after-an-earlier-retransmission'):
+                 'retry-answer-lost', 'invalid-ke-after-cookie', 'retry-lost:after-an-earlier-retransmission',
+                 'retry-lost-thrice:after-an-earlier-retransmission', 'retry-lost-thrice'):
         w = base_world() if mode != 'invalid-ke-after-cookie' else ke_mismatch_world()
         w.endpoints['B'].controller.cookie_threshold = -1 if mode != 'after-real-reply' else 10 ** 6
         w.step(('acquire', 'A', 0, 0))
@@ -453,6 +454,19 @@ def initiator_cases():
                 sa = w.endpoints['A'].controller.ike_sas[0]
                 w.step(('tick', max(0.0, sa.retransmit_at - w.clock) + 0.01))
                 again = [d for d in w.step_emitted if d.sender == 'A']
+                if mode.startswith('retry-lost-thrice') and len(again) == 1:
+                    # the request with the cookie is a request like any other: it is sent as often as any other before the
+                    # initiator gives up - its fourth transmission gets through here, and the handshake completes
+                    for _ in range(2):
+                        for d in list(w.net):
+                            w.step(('drop', d.id))
+                        sas = w.endpoints['A'].controller.ike_sas
+                        if not sas:
+                            break
+                        w.step(('tick', max(0.0, sas[0].retransmit_at - w.clock) + 0.01))
+                    if not w.net:
+                        v.append(('retry-given-up-early', 'the request carrying the cookie was lost three times: a fourth transmission '
+                                  '(every request gets four) was not sent, IKE_SAs of A: %s' % [x.state.name for x in w.endpoints['A'].controller.ike_sas]))
                 if len(again) != 1 or again[0].data != retry[0].data:
                     v.append(('retransmission-differs:%s' % mode, 'after the COOKIE exchange the retransmission timer sent %s '
                               'instead of the request in use (the one carrying the cookie)' % (
